@@ -78,7 +78,7 @@ fn render_v2(h: &v2::Header<'_>) -> String {
     let mut it = h.tlvs();
     let _ = it.next();
     let raw = v2::Builder::new(h.header[12], h.header[13]).write_payload(h.address_bytes()).and_then(|b| b.write_payload(h.tlv_bytes())).and_then(|b| b.build()).map_err(|e| e.kind());
-    format!("{}|{}|{:?}|{}|{}|{:?}|{:?}|{:?}|{}|{:?}|{:?}", h.len(), h.length(), h.address_family(), h.address_bytes().len(), h.tlv_bytes().len(), h.addresses, h.command, items, it.clone().count(), it.last().map(|t| t.map(|t| t.kind)), raw.map(|b| spec::rng::hash_bytes(&b)))
+    format!("{}|{}|{:?}|{}|{}|{:?}|{:?}|{:?}|{}|{:?}|{:?}", h.len(), h.length(), h.address_family(), h.address_bytes().len(), h.tlv_bytes().len(), h.addresses, h.command, items, it.clone().take(h.len() / 3 + 3).count(), it.take(h.len() / 3 + 3).last().map(|t| t.map(|t| t.kind)), raw.map(|b| spec::rng::hash_bytes(&b)))
 }
 
 fn fill_builder(x: &[u8]) -> std::io::Result<v2::Builder> {
@@ -212,12 +212,12 @@ pub fn run_op(op: usize, x: &[u8]) -> String {
             .map(|h| format!("{:?}", v2::Builder::new(h.header[12], h.header[13]).write_payload(h.address_bytes()).and_then(|b| b.write_payload(h.tlvs())).and_then(|b| b.build()).map_err(|e| e.kind())))
             .unwrap_or_else(|_| "-".into()),
         11 => v2::Header::try_from(x)
-            .map(|h| format!("{:?}", v2::Builder::with_addresses(h.version | h.command, h.protocol, h.addresses).write_payloads(h.tlvs().filter_map(|t| t.ok())).and_then(|b| b.build()).map_err(|e| e.kind())))
+            .map(|h| format!("{:?}", v2::Builder::with_addresses(h.version | h.command, h.protocol, h.addresses).write_payloads(h.tlvs().take(h.len() / 3 + 3).filter_map(|t| t.ok())).and_then(|b| b.build()).map_err(|e| e.kind())))
             .unwrap_or_else(|_| "-".into()),
         12 => {
             let t = v2::TypeLengthValues::from(&x[..x.len().min(400)]);
             let items: Vec<String> = t.clone().take(64).map(|t| format!("{:?}", t.map(|t| (t.kind, t.value.len())))).collect();
-            format!("{}|{:?}|{}", t.len(), items, t.count())
+            format!("{}|{:?}|{}", t.len(), items, t.take(x.len() / 3 + 3).count())
         }
         13 => format!("{:?}", fill_builder(x).and_then(|b| b.build()).map_err(|e| e.kind())),
         14 => {
